@@ -289,6 +289,6 @@ U('mapped_roundtrip', fam_mapped, 'pgmv_harness', ['C12', 'C17'], inline=['Mappe
 U('dyn_range', fam_dyn, 'Dyn_range', ['C06', 'C20', 'C17'], thorough_only_props=['C06', 'C20', 'C17'], inline=['Item_deleted', 'Dyn_level', 'Dyn_pgm', 'Dyn_has_pgm'], stubs=['Dyn_lower_bound_bl', 'Dyn_merge'],
   assumed=['PGMType_search'], decls=['dyn_ghost', 'dyn_rank', 'dyn_mergeview', 'dyn_range_ghost'],
   lemmas=['lemma_strict2', 'lemma_absent2', 'lemma_rank_item', 'lemma_pgm_built', 'lemma_level_pos', 'pgmv_upper_bound_Item'],
-  insts=DYN_Q, spec=('dyn.spec',), timeout=5400, partition=16, mem_gb=10, defines=['NLEV=4', 'PGMV_LOCAL_VEC_CAP', 'FL_MAXSZ=((size_t)1<<30)'],
-  assumptions=[DYN_NOTE, SEARCH_NOTE, 'thorough tier only (about 10 minutes on 16 idle cores, 43 M clauses per obligation group); at most 4 used levels above the buffer (NLEV=4), levels of at most 2^30 entries', 'local vectors are modelled with an arbitrary (symbolic) capacity fixed at construction, so that growing calls never reallocate [A: equivalent to std::vector here: no iterator is held across a growing call]; both loops are closed by loop contracts',
+  insts=DYN_Q, spec=('dyn.spec',), timeout=2400, partition=16, mem_gb=24, defines=['NLEV=12', 'PGMV_LOCAL_VEC_CAP', 'FL_MAXSZ=((size_t)1<<30)'],
+  assumptions=[DYN_NOTE, SEARCH_NOTE, 'thorough tier only (about 30 minutes, 43 M clauses and up to 7 GB per obligation group, four solver processes at a time); at most 12 used levels above the buffer (NLEV=12; 32 runs out of memory), levels of at most 2^30 entries', 'local vectors are modelled with an arbitrary (symbolic) capacity fixed at construction, so that growing calls never reallocate [A: equivalent to std::vector here: no iterator is held across a growing call]; both loops are closed by loop contracts',
                'one ghost prophecy variable (which entry of the merged run ends up at the witness result index), resolved by an assume in ghost code: does not restrict the real execution'])
